@@ -82,3 +82,63 @@ Fixpoint climbs (k : nat) (h : pheap) (n body : nat) (p : N) (ok : nat -> Prop) 
       n <> body /\ ok n /\ assoc p (p_decls (pgetn h n)) = None /\
       exists q, p_parent (pgetn h n) = Some q /\ climbs k' h q body p ok
   end.
+
+(* ------------------------------------------------------------------ *)
+(* Element.promotePrefixes, one element against its parent             *)
+(* ------------------------------------------------------------------ *)
+
+Fixpoint dremove (p : N) (l : list (N * N)) : list (N * N) :=
+  match l with
+  | [] => []
+  | (k, u) :: r => if N.eqb p k then dremove p r else (k, u) :: dremove p r
+  end.
+
+(* dict assignment: an existing key keeps its place *)
+Fixpoint dset (l : list (N * N)) (p u : N) : list (N * N) :=
+  match l with
+  | [] => [(p, u)]
+  | (k, v) :: r => if N.eqb p k then (k, u) :: r else (k, v) :: dset r p u
+  end.
+
+(* for p, u in list(self.nsprefixes.items()):
+       if p in self.parent.nsprefixes:
+           pu = self.parent.nsprefixes[p]
+           if pu == u: del self.nsprefixes[p]
+           continue
+       if p != self.parent.prefix:
+           self.parent.nsprefixes[p] = u; del self.nsprefixes[p]
+   todo = the snapshot; dn / dp = the element's / the parent's declarations;
+   pp = the parent's own prefix.  overwrite = true is the variant in which
+   `continue` sits inside `if pu == u` (a colliding declaration falls through). *)
+Fixpoint promote_decls (overwrite : bool) (pp : option N) (todo dn dp : list (N * N))
+  : list (N * N) * list (N * N) :=
+  match todo with
+  | [] => (dn, dp)
+  | (p, u) :: r =>
+      let lift := match pp with Some x => negb (N.eqb p x) | None => true end in
+      match assoc p dp with
+      | Some pu =>
+          if N.eqb pu u then promote_decls overwrite pp r (dremove p dn) dp
+          else if overwrite && lift then promote_decls overwrite pp r (dremove p dn) (dset dp p u)
+          else promote_decls overwrite pp r dn dp
+      | None =>
+          if lift then promote_decls overwrite pp r (dremove p dn) (dset dp p u)
+          else promote_decls overwrite pp r dn dp
+      end
+  end.
+
+(* on the heap: element n against its parent *)
+Definition promote_at (overwrite : bool) (h : pheap) (n : nat) : pheap :=
+  match p_parent (pgetn h n) with
+  | None => h
+  | Some q =>
+      let nd := pgetn h n in
+      let qd := pgetn h q in
+      let r := promote_decls overwrite None (p_decls nd) (p_decls nd) (p_decls qd) in
+      psetn (psetn h n (mkP (p_parent nd) (fst r) (p_kids nd))) q (mkP (p_parent qd) (snd r) (p_kids qd))
+  end.
+
+(* what p means at an element with declarations dn under a parent with dp
+   (the parent taken as the top) *)
+Definition means (dn dp : list (N * N)) (p : N) : option N :=
+  match assoc p dn with Some u => Some u | None => assoc p dp end.
